@@ -118,7 +118,11 @@ Calls == {c \\in [recv : Recvs, args : ArgSeqs, kw : Kws] :
 VARIABLES fam, call, out
 Interesting(f, c) == \\E i \\in 1..Len(Families[f]) : \\E o \\in Families[f][i].ovs : KindOk(o, c) /\\ MapArgs(o, c).ok
 Sampled(f, c) == (f * 7 + Len(c.args) * 3 + Len(c.kw)) %% %(mod)d = 0
+\\* an empty slot that would fall into a *args region passes the NO_VALUE marker through to the payload: outside the fragment
+HasSkip(c) == \\E i \\in 1..Len(c.args) : c.args[i] = "skip"
+FamilyHasStar(f) == \\E i \\in 1..Len(Families[f]) : \\E o \\in Families[f][i].ovs : o.star # "none"
 Init == /\\ fam \\in 1..Len(Families) /\\ call \\in Calls
+        /\\ ~(HasSkip(call) /\\ FamilyHasStar(fam))
         /\\ (Interesting(fam, call) \\/ Sampled(fam, call))
         /\\ out = Resolve(Families[fam], call)
 Next == UNCHANGED <<fam, call, out>>
